@@ -334,9 +334,11 @@ def r1(ctx):
                    message=(f"{d} shares its generated name with {dup}" if dup else
                             f"`{unparse(v)[:140]}` does not name {d} from `{job_p}.{d}`"))
     # ---- Job(...) constructions of ScheduleStep (and subclasses): directories come from the step's fixed values
+    njob = 0
     for cq in [SCHED_STEP, *p.subclasses(SCHED_STEP)]:
         for m in p.cls(cq).methods.values():
             for c in _calls(p, m, JOB):
+                njob += 1
                 bad = [d for d in DIRS if kwarg(c, d) is None or unparse(kwarg(c, d)) != f"self.{d}"]
                 ctx.ob("R1", "Job(...) receives only the step-level (binding-fixed) directories", not bad, func=m, node=c,
                        instance=f"job-ctor:{m.name}:{'no-inputs' if isinstance(kwarg(c, 'inputs'), ast.Dict) else 'inputs'}",
@@ -350,6 +352,7 @@ def r1(ctx):
                             ok = m.name == "__init__" and cq == SCHED_STEP and is_name(n.value, d)
                             ctx.ob("R1", f"self.{d} is written once, from the constructor argument", ok, func=m, node=n,
                                    instance=f"step-dir-write:{m.name}:{d}")
+    ctx.require(njob >= 1, f"C15.R1: no Job(...) construction found in {SCHED_STEP} or its subclasses")
 
 
 # --------------------------------------------------------------------------- R2
@@ -911,7 +914,9 @@ def r4(ctx):
 
 
 RULES = [("R1", r1), ("R2", r2), ("R3", r3), ("R4", r4)]
-FLOORS = {"R1": 10, "R2": 10, "R3": 8, "R4": 6}
+# R1: the two Job(...) constructions of ScheduleStep.run may legitimately be one shared helper (9 instances then);
+# that at least one construction is analysed is required separately in r1
+FLOORS = {"R1": 9, "R2": 10, "R3": 8, "R4": 6}
 
 _MK = "create_tasks.append(asyncio.create_task(StreamFlowPath(directory, context=self.workflow.context, location=location).mkdir(mode=511, parents=True, exist_ok=True)))"
 _MKTASK = "asyncio.create_task(StreamFlowPath(directory, context=self.workflow.context, location=location).mkdir(mode=511, parents=True, exist_ok=True))"
